@@ -9,11 +9,13 @@ Driver for C19.  Requests:
 -/
 open Lean FimVerif.Proto FimVerif.Cypher
 
-def pairs (j : Json) : Option (List (String × Text)) :=
+def ofS (s : String) : Text := s.toList.map Char.toNat
+
+def pairs (j : Json) : Option (List (Text × Text)) :=
   match j with
   | .arr xs => xs.toList.mapM fun x =>
       match x with
-      | .arr #[.str a, .str b] => some (a, b.toList)
+      | .arr #[.str a, .str b] => some (ofS a, ofS b)
       | _ => none
   | _ => none
 
@@ -25,40 +27,41 @@ def rowOf (j : Json) : Option Row :=
       pure ⟨i, v⟩
   | _ => none
 
-def mapsOf (j : Json) : Option (List (String × List Row)) :=
+def mapsOf (j : Json) : Option (List (Text × List Row)) :=
   match j with
   | .arr xs => xs.toList.mapM fun x =>
       match x with
       | .arr #[.str n, .arr rs] => do
           let rows ← rs.toList.mapM rowOf
-          pure (n, rows)
+          pure (ofS n, rows)
       | _ => none
   | _ => none
 
-def txt (t : Text) : Json := Json.str (String.ofList t)
+def txt (t : Text) : Json := Json.str (String.ofList (t.map Char.ofNat))
 
 def lintJson (l : Lint) : List (String × Json) :=
-  [("defects", ofStrs l.defects), ("unbound", Json.arr (l.unbound.map txt).toArray), ("missing", Json.arr (l.missing.map txt).toArray)]
+  [("defects", ofStrs l.defects), ("unbound", Json.arr (l.unbound.map txt).toArray),
+   ("missing", Json.arr (l.missing.map txt).toArray)]
 
 def handle (j : Json) : Json :=
   match j with
   | .arr #[.str "render", .str key, vj, ij, vvj, mj] =>
     match vj.getNat?.toOption, pairs ij, pairs vvj, mapsOf mj with
     | some variant, some ids, some vals, some maps =>
-      match FimVerif.Gen.Cypher.ops.find? (fun o => o.key == key && o.variant == variant) with
+      match FimVerif.Gen.Cypher.ops.find? (fun o => o.key == ofS key && o.variant == variant) with
       | some op =>
         let e : Env := ⟨ids, vals, maps⟩
         let t := render e op.tpl
-        ok (Json.mkObj ([("text", txt t), ("supplied", ofStrs (op.supplied.map String.ofList)), ("vf", Json.bool (valueFree op.tpl))]
+        ok (Json.mkObj ([("text", txt t), ("supplied", Json.arr (op.supplied.map txt).toArray), ("vf", Json.bool (valueFree op.tpl))]
                         ++ lintJson (lint t op.supplied)))
       | none => err "no-such-op"
     | _, _, _, _ => err "bad-args"
   | .arr #[.str "lint", .str text, sj] =>
     match getStrs sj with
-    | some sup => ok (Json.mkObj (lintJson (lint text.toList (sup.map String.toList))))
+    | some sup => ok (Json.mkObj (lintJson (lint (ofS text) (sup.map ofS))))
     | none => err "bad-args"
   | .arr #[.str "variants", .str key] =>
-    ok (Json.num (JsonNumber.fromNat (FimVerif.Gen.Cypher.ops.filter (fun o => o.key == key)).length))
+    ok (Json.num (JsonNumber.fromNat (FimVerif.Gen.Cypher.ops.filter (fun o => o.key == ofS key)).length))
   | _ => err "bad-request"
 
 def main : IO Unit := run handle
